@@ -77,6 +77,36 @@ def scale_files(tier):
     return out
 
 
+def huge_file():
+    from mc.alphabets import sized_text
+    M = ['meta', {'path': 'f'}, None]
+    b, _ = spec.serialize([
+        ['change', None], ['file', None], M,
+        ['diff', sized_text(2300000, 'lines').encode(), None, None, None],
+        ['file', None], M,
+        ['diff', b'tail\n', None, None, None]], 'utf-8')
+    return ('scale-2m', b)
+
+
+def huge_cuts(data, lay):
+    """Cut points for the 2.3 MB file: every offset within +-48 bytes of
+    each section boundary and of each power-of-two / buffer-size offset
+    inside the big section, the last 400 bytes, and a regular stride."""
+    pts = set(range(0, 200)) | set(range(len(data) - 400, len(data) + 1))
+    for hs, cs, ce, sid, nlb in lay:
+        for c in (hs, cs, ce):
+            pts |= set(range(max(0, c - 48), min(len(data), c + 49)))
+        if ce - cs > 100000:
+            for off in (1024, 4096, 8192, 65536, 131072, 262144, 250000,
+                        300000, 400000, 500000, 524288, 640000, 1000000,
+                        1048576, 2000000, 2097152):
+                c = cs + off
+                if c < ce:
+                    pts |= set(range(c - 48, c + 49))
+    pts |= set(range(0, len(data), 9973))
+    return sorted(p for p in pts if 0 <= p <= len(data))
+
+
 def files(tier):
     out = [(n, d) for n, d in base_files() if n != 'long-headers']
     out += extra_files()
@@ -314,6 +344,12 @@ def plan(tier):
         for lo in range(0, len(data) + 1, step):
             units.append(('cut', fi, lo, min(lo + step, len(data) + 1)))
         units.append(('perturb', fi))
+    hname, hdata = huge_file()
+    hlay = layout(hdata)
+    hc = huge_cuts(hdata, hlay)
+    for i in range(0, len(hc), 60):
+        units.append(('huge-cut', i, i + 60))
+    units.append(('huge-perturb',))
     return {
         'units': units,
         'rule': '%d well-formed files (every section kind, indent, CRLF '
@@ -322,7 +358,10 @@ def plan(tier):
                 'examples) x EVERY truncation point 0..len(file) (%d cuts) '
                 'and x every content header x %d length perturbations '
                 '(+-1..8, 0, negative, abc, 1.5, 1_0, 0x10, 007, 20 digits, '
-                'missing). Oracle: truncation -> records are a prefix (full '
+                'missing); plus a 2.3 MB file cut at every offset within +-48 '
+                'bytes of each section boundary and of each power-of-two / '
+                'buffer-size offset inside its big section, its first 200 '
+                'and last 400 bytes and every 9973rd byte. Oracle: truncation -> records are a prefix (full '
                 'record equality) of the intact file\'s records then normal '
                 'end or DiffXParseError; perturbation -> compared with the '
                 'strict reference reading of the perturbed bytes. '
@@ -338,6 +377,41 @@ def plan(tier):
 
 def run_unit(unit, tier):
     acc = Acc()
+    if unit[0] in ('huge-cut', 'huge-perturb'):
+        name, data = huge_file()
+        ref_recs, exc, _, _ = read_all(data)
+        ref = [rec_core(r) for r in ref_recs]
+        lay = layout(data)
+        if unit[0] == 'huge-cut':
+            for cut in huge_cuts(data, lay)[unit[1]:unit[2]]:
+                viols = check_cut(name, data, ref, lay, cut)
+                acc.evals += 1
+                acc.states += 1
+                acc.transitions += 1
+                acc.validated += 1
+                acc.nontrivial += 1
+                for key, msg in viols:
+                    acc.violation(key, msg[:1200], {'kind': 'cut',
+                                                    'name': name,
+                                                    'cut': cut})
+                acc.outcome('ok' if not viols else 'violation')
+            acc.sample({'file': name, 'bytes': len(data)}, 1)
+        else:
+            for hi, (hs, cs, ce, sid, nlb) in enumerate(lay):
+                if sid not in spec.CONTENT_IDS:
+                    continue
+                for p in PERTURB:
+                    viols = check_perturb(name, data, ref, lay, hi, p)
+                    acc.evals += 1
+                    acc.transitions += 1
+                    acc.validated += 1
+                    acc.nontrivial += 1
+                    for key, msg in viols:
+                        acc.violation(key, msg[:1200],
+                                      {'kind': 'perturb', 'name': name,
+                                       'header': hi, 'p': p})
+                    acc.outcome('ok' if not viols else 'violation')
+        return acc
     fs = files(tier)
     fi = unit[1]
     name, data = fs[fi]
@@ -386,7 +460,7 @@ def replay(payload):
     k = payload.get('kind')
     if k not in ('cut', 'perturb'):
         return []
-    fs = files('thorough')
+    fs = files('thorough') + [huge_file()]
     cand = [(n, d) for n, d in fs if n == payload['name']]
     name, data = cand[0]
     ref_recs, exc, _, _ = read_all(data)
